@@ -99,6 +99,23 @@ CHECKS = {
              "execute. Print/text direction: str(q) and three renderings of the equivalent Python call are stuttering "
              "steps on the function for the whole configuration lattice (same probe-based trace validation as C09).",
         design="7 C10"),
+    "C16": dict(
+        spec="QTypes.tla + MC_QTypes + Trace_QTypes",
+        text="QTypes.tla gives every operand and reported type an exact value lattice and transcribes the multiplier "
+             "table and bit rules; TLC brute-forces every value pair of every operand-type pair of the lattice "
+             "(products representable up to the named deviations, zero representable, fixed x fixed exact, widening "
+             "monotone); the same lattice is pushed through the real quantizer_factory / MultiplierFactory and TLC "
+             "judges the reported output type and implementation kind of every pair against the value lattices "
+             "(the transcription itself agrees with the code on the whole lattice: 0 deviations).",
+        design="7 C16"),
+    "C17": dict(
+        spec="QTypes.tla + MC_QTypes + Trace_QTypes",
+        text="For every multiplier output type of the lattice, N in {1..4097 incl. 2^k, 2^k+-1} and use_bias, and for "
+             "adder operand pairs: N*max and N*min (resp. max a+max b, min a+min b) are representable in the type "
+             "the transcribed rule yields (TLC, named deviations) and in the type the real AccumulatorFactory / "
+             "IAdder report (TLC trace validation); result step never coarser than the finest operand; widening N "
+             "never narrows.",
+        design="7 C17", note="merge layers (Add/Maximum/Concatenate) are not yet covered"),
 }
 
 
